@@ -672,6 +672,7 @@ class Daemon(object):
                     raise errors.DaemonError("object or class already has a Pyro id")
             if objectId in self.objectsById:
                 raise errors.DaemonError("an object or class is already registered with that id")
+        uri = self.uriFor(objectId)     # also validates the id, before anything is registered
         # set some pyro attributes
         obj_or_class._pyroId = objectId
         obj_or_class._pyroDaemon = self
@@ -685,7 +686,7 @@ class Daemon(object):
         # register the object/class in the mapping
         self.objectsById[obj_or_class._pyroId] = obj_or_class if not weak else weakref.ref(obj_or_class)
         if weak: weakref.finalize(obj_or_class,self.unregister,objectId)
-        return self.uriFor(objectId)
+        return uri
 
     def unregister(self, objectOrId):
         """
